@@ -539,4 +539,66 @@ mut("listsib: pop replayed at another index", ["R-LISTSIB"],
     [(LL, "            _ = copied_list.pop(index)", "            _ = copied_list.pop()")], ["pop"])
 twin("lists: remove written as pop(index(x))", ["R-LISTSIB", "R-LISTPAIR"], [(LL, "removed_value", "taken_out"), ]) if False else None
 
+# ------------------------------------------------------------------------------------------------ tables
+mut("agg: a CDN category added to the energy dict only", ["R-AGG"],
+    [(SYS, '''            "Devices": {usage_pattern.id: usage_pattern.energy_footprint
+                        for usage_pattern in self.usage_patterns},
+        }
+
+        return energy_footprints''', '''            "Devices": {usage_pattern.id: usage_pattern.energy_footprint
+                        for usage_pattern in self.usage_patterns},
+            "CDN": {network.id: network.energy_footprint for network in self.networks},
+        }
+
+        return energy_footprints''')], ["KEYS", "energy_footprints"])
+mut("agg: servers view reads the fabrication footprint in the energy dict", ["R-AGG"],
+    [(SYS, '''            "Servers": {server.id: server.energy_footprint for server in self.servers},''',
+      '''            "Servers": {server.id: server.instances_fabrication_footprint for server in self.servers},''')],
+    ["SIB", "Servers"])
+mut("agg: storage totals summed over the jobs' servers without dedup", ["R-AGG"],
+    [(SYS, '''            "Storage": sum([storage.energy_footprint for storage in self.storages], start=EmptyExplainableObject()''',
+      '''            "Storage": sum([server.storage.energy_footprint for server in self.servers], start=EmptyExplainableObject()''')],
+    ["Storage"])
+mut("json: writer stops emitting the unit of a quantity", ["R-JSON-KEYS"],
+    [(EO, '''            "label": self.label, "value": float(self.value.magnitude), "unit": str(self.value.units)}''',
+      '''            "label": self.label, "value": float(self.value.magnitude), "units": str(self.value.units)}''')],
+    ["ExplainableQuantity.to_json"])
+mut("json: reader requires a value key again (revert of fix F9)", ["R-JSON-KEYS"],
+    [(J2S, '''SourceObject(input_dict.get("value"), source, input_dict["label"])''',
+      '''SourceObject(input_dict["value"], source, input_dict["label"])''')], ["ExplainableObject.to_json", "value"])
+mut("json: hourly writer renames start_date", ["R-JSON-KEYS"],
+    [(EO, '''            "start_date": self.value.index[0].strftime("%Y-%m-%d %H:%M:%S")''',
+      '''            "start": self.value.index[0].strftime("%Y-%m-%d %H:%M:%S")''')], ["ExplainableHourlyQuantities.to_json"])
+mut("json: a class gains a list-valued bookkeeping attribute", ["R-JSON-KINDS"],
+    [(NW, '''        self.energy_footprint = EmptyExplainableObject()
+        self.bandwidth''', '''        self.energy_footprint = EmptyExplainableObject()
+        self.history = [0]
+        self.bandwidth''')], ["Network.history"])
+mut("json: short_name dropped from the writer's explicit list", ["R-JSON-KINDS"],
+    [(MO, '''            if key in ["name", "id", "short_name", "impact_url"]:''', '''            if key in ["name", "id", "impact_url"]:''')],
+    ["Country.short_name"])
+mut("json: major version bumped without an upgrade handler", ["R-JSON-UPG"],
+    [("version.py", "10.", "11.")], ["handler for 10"])
+mut("json: a concrete model class is left out of the public list", ["R-JSON-CLS"],
+    [(ORD, "SERVER_CLASSES = [Server, GPUServer]", "SERVER_CLASSES = [Server]")], ["GPUServer"], undecided_ok=True)
+mut("val: sign check dropped from the validator", ["R-VAL-FORMS"],
+    [(MO, '''                if input_value.magnitude < 0 and name not in self.attributes_that_can_have_negative_values():
+                    raise ValueError(
+                        f"Value {input_value} for attribute {name} should be positive but is negative")''', "                pass")],
+    ["sign"])
+mut("val: a second union-annotated parameter", ["R-VAL-FORMS"],
+    [(NW, "    def __init__(self, name: str, bandwidth_energy_intensity: ExplainableQuantity):",
+      "    def __init__(self, name: str, bandwidth_energy_intensity: ExplainableQuantity | EmptyExplainableObject):")],
+    ["Network.bandwidth_energy_intensity", "union"])
+mut("val: update path no longer validates type and unit", ["R-VAL-SIB"],
+    [(MU, '''                mod_obj_container.check_input_value_type_positivity_and_unit(
+                    old_value.attr_name_in_mod_obj_container, new_value, mod_obj_container.default_values())''',
+      "                pass")], ["update", "check_input_value_type_positivity_and_unit"])
+mut("val: construction no longer checks allowed values", ["R-VAL-SIB"],
+    [(MO, '''                self.check_belonging_to_authorized_values(
+                    name, input_value, self.list_values(), self.conditional_list_values(),
+                    self.attributes_with_depending_values())''', "                pass")], ["construction"])
+mut("val: a quantity parameter loses its default", ["R-VAL-DEF"],
+    [(NW, '''            "bandwidth_energy_intensity": SourceValue(0.1 * u.kWh / u.GB)''', "")], ["bandwidth_energy_intensity"])
+
 VARIANTS = [v for v in V if v is not None]
